@@ -257,6 +257,18 @@ def check(model: Model, run: Run) -> None:
                         if isinstance(a, ast.Name) and a.id == "self" and i < len(hf.params()):
                             pn = hf.params()[i]
                             read |= {x.attr for x in ast.walk(hf.node) if isinstance(x, ast.Attribute) and isinstance(x.value, ast.Name) and x.value.id == pn}
+        # formatting methods of the class (or of a mixin) called on self, transitively
+        seen_m = {sfi.qualname}
+        todo_m = [sfi]
+        while todo_m:
+            cur = todo_m.pop()
+            for n in ast.walk(cur.node):
+                if isinstance(n, ast.Attribute) and isinstance(n.value, ast.Name) and n.value.id == "self" and isinstance(n.ctx, ast.Load):
+                    hm = model.find_method(q, n.attr)
+                    if hm is not None and hm.qualname not in seen_m and not isinstance(hm.node, ast.Lambda):
+                        seen_m.add(hm.qualname)
+                        todo_m.append(hm)
+                        read |= {x.attr for x in ast.walk(hm.node) if isinstance(x, ast.Attribute) and isinstance(x.value, ast.Name) and x.value.id == "self"}
         ctor = [n for n in ast.walk(ffi.node) if isinstance(n, ast.Call) and norm(n.func) == cname]
         assigned = {k.arg for n in ctor for k in n.keywords}
         for f in fields:
@@ -289,6 +301,10 @@ def keyword_skeleton(model: Model, run: Run, folder: Folder, cname: str) -> None
                     q_ = model.resolve_name(SCHEMA, x.func.id)
                     hf = model.functions.get(q_) if q_ else None
                     if hf is not None and hf.cls is None and not isinstance(hf.node, ast.Lambda) and hf is not fi_:
+                        yield from literal_stream(hf, depth + 1)
+                elif isinstance(x.func, ast.Attribute) and isinstance(x.func.value, ast.Name) and x.func.value.id == "self" and depth < 3:
+                    hf = model.find_method(q, x.func.attr)        # a formatting method of the class (or of a mixin it inherits)
+                    if hf is not None and not isinstance(hf.node, ast.Lambda) and hf is not fi_ and hf.module == SCHEMA:
                         yield from literal_stream(hf, depth + 1)
                 continue
             if id(x) in inner and isinstance(x, ast.Constant):
